@@ -4,4 +4,5 @@ set -e
 cd "$(dirname "$0")"
 /usr/bin/env python3 extract/extract.py
 cd lean
-lake build XcmModel Driver driver 2>&1 | tail -5
+lake build XcmModel driver > ../.setup.log 2>&1 || { tail -40 ../.setup.log; exit 1; }
+tail -3 ../.setup.log
